@@ -143,6 +143,9 @@ Proof. unfold chk_C05. apply all_rets_ext. intros t r d tl. reflexivity. Qed.
 Lemma C06_stop_defuse e tr : chk_C06_stop (defuse e) tr = chk_C06_stop e tr.
 Proof. unfold chk_C06_stop. apply all_rets_ext. intros t r d tl. reflexivity. Qed.
 
+Lemma C12_src_defuse e tr : chk_C12_src (defuse e) tr = chk_C12_src e tr.
+Proof. unfold chk_C12_src. apply all_rets_ext. intros t r d tl. reflexivity. Qed.
+
 Lemma C11_defuse e tr : chk_C11 (defuse e) tr = chk_C11 e tr.
 Proof.
   unfold chk_C11. apply all_rets_ext. intros t r d tl. unfold ev_C11.
@@ -173,7 +176,7 @@ Proof.
   pose proof (iter_C12 (defuse e) Hie' Hfu progs Hp sched Hw) as H12.
   cbn [check_prop] in *. unfold chk_C06 in *.
   rewrite ?nodup_defuse, ?noloss_defuse, ?C02_defuse, ?C03_defuse, ?C04_order_defuse, ?C04_prefix_defuse,
-          ?C05_defuse, ?C06_stop_defuse, ?C11_defuse in *.
+          ?C05_defuse, ?C06_stop_defuse, ?C11_defuse, ?C12_src_defuse in *.
   repeat split; assumption.
 Qed.
 
